@@ -50,8 +50,13 @@ def channel(draw, has_bnodes):
                                                ("turtle_iter", "raw", None)]))
     parts = draw(st.integers(1, 4)) if how in ("files", "urls") or comp == "zip" else 1
     assign = draw(st.lists(st.integers(0, 3), min_size=1, max_size=12))
-    return {"fmt": fmt, "how": how, "comp": comp, "parts": parts, "assign": assign, "zips": draw(st.integers(1, 2)),
-            "pfx": draw(st.integers(0, 63))}
+    ch = {"fmt": fmt, "how": how, "comp": comp, "parts": parts, "assign": assign, "zips": draw(st.integers(1, 2)),
+          "pfx": draw(st.integers(0, 63))}
+    if how == "files" and comp != "zip" and fmt in ("nt", "tsv_spo", "turtle", "turtle_iter", "n3") and draw(st.integers(0, 2)) == 0:
+        # one of the listed files is empty (an export split into parts, one part without content): an empty document of these
+        # syntaxes is a valid document without triples, wherever it stands in the list
+        ch["empty_at"] = draw(st.integers(0, 4))
+    return ch
 
 
 @st.composite
@@ -182,6 +187,10 @@ def channel_kwargs(ch, triples, d, idx):
         path = os.path.join(d, "c%d_p%d.%s%s" % (idx, j, ext, {"gz": ".gz", "xz": ".xz"}.get(comp, "")))
         write(path, content(fmt, p, ch.get("pfx", 0)), comp)
         paths.append(path)
+    if ch.get("empty_at") is not None and how == "files":
+        path = os.path.join(d, "c%d_empty.%s%s" % (idx, ext, {"gz": ".gz", "xz": ".xz"}.get(comp, "")))
+        write(path, "", comp)
+        paths.insert(ch["empty_at"] % (len(paths) + 1), path)
     if comp:
         kw["compression_mode"] = comp
     if how == "file":
@@ -238,6 +247,8 @@ def check(case):
             multi = ch["parts"] > 1 and (ch["how"] in ("files", "urls") or ch["comp"] == "zip")
             if multi:
                 labels.add("multi-file")
+            if ch.get("empty_at") is not None:
+                labels.add("empty-file-in-list")
             if rich and (multi or ch["comp"] or ch["fmt"] != "nt"):
                 nt = True
             text, crash = sut.shex(ckw, acceptance_threshold=thr)
